@@ -196,6 +196,22 @@ def judge_divmod(R, label, pa, pb, ma, mb, tags, sub, cofactor=None, out=None):
                     if degree1(er[idx], names[0]) >= max(degree1(eb[idx], names[0]), 0) and not (degree1(eb[idx], names[0]) == 0):
                         probs.append(f"element {idx}: deg r = {degree1(er[idx], names[0])} >= deg divisor = {degree1(eb[idx], names[0])}")
                         break
+    if cofactor is None and not probs and int(numpy.prod(bshape)) > 1:
+        # arrays whose elements are a mix of exact multiples and other dividends: an independent exact division (sympy, over
+        # the rationals) says which elements are multiples; for those the remainder must vanish and q must be the cofactor
+        for idx in numpy.ndindex(*bshape):
+            da_, db_ = dict(ea[idx]), dict(eb[idx])
+            if not db_ or set(db_) == {ONE} or not da_:
+                continue
+            cof = exact_cofactor(da_, db_, names)
+            if cof is None:
+                continue
+            if dict(er[idx]) and not close_el(dict(er[idx]), {}):
+                probs.append(f"element {idx}: {da_} is an exact multiple of {db_} but the remainder is {dict(er[idx])}")
+                break
+            if not close_el(dict(eq[idx]), cof):
+                probs.append(f"element {idx}: exact multiple: quotient {dict(eq[idx])} != cofactor {cof}")
+                break
     if cofactor is not None and not probs:
         C = cofactor.map(lambda c: numpy.broadcast_to(c, bshape))
         ec = C.elements()
@@ -213,6 +229,25 @@ def judge_divmod(R, label, pa, pb, ma, mb, tags, sub, cofactor=None, out=None):
         return None
     R.outcome((mq.key(), mr.key()))
     return q, r
+
+
+def exact_cofactor(a, b, names):
+    """element dicts (monomial -> coefficient) -> cofactor dict if b divides a exactly over the rationals, else None"""
+    import sympy
+    if any(isinstance(c, complex) for c in list(a.values()) + list(b.values())):
+        return None
+    syms = {n: sympy.Symbol(n) for n in names}
+
+    def expr(d):
+        return sympy.Add(*[sympy.Rational(Fraction(c).numerator, Fraction(c).denominator) * sympy.Mul(*[syms[n] ** e for n, e in m]) for m, c in d.items()])
+    gens = [syms[n] for n in names]
+    q_, r_ = sympy.div(sympy.Poly(expr(a), *gens, domain="QQ"), sympy.Poly(expr(b), *gens, domain="QQ"))
+    if not r_.is_zero:
+        return None
+    out = {}
+    for mon, c in q_.terms():
+        out[frozenset((n, int(e)) for n, e in zip(names, mon) if e)] = Fraction(int(c.p), int(c.q))
+    return out
 
 
 def close_el(a, b):
@@ -316,8 +351,8 @@ def run_arrays(R, nonzero_divisors=False, tag=None):
     names2 = ("q0", "q1")
     pool2 = [[((1, 0), 1)], [((0, 1), 2)], [((1, 1), 1), ((0, 0), 1)], [], [((0, 0), -2)], [((2, 0), 1)]]
     dpool2 = [t for t in pool2 if t] if nonzero_divisors else pool2
-    for sa, sb in [((3,), (3,)), ((2, 1), (1, 3))]:
-        for ra, rb in itertools.product(range(3), range(3)):
+    for sa, sb in [((3,), (3,)), ((2, 1), (1, 3)), ((3,), ()), ((), (3,)), ((2, 3), (3,)), ((2, 2), ()), ((6,), ())]:
+        for ra, rb in itertools.product(range(6 if not sb else 3), range(len(dpool2) if not sb else 3)):
             spa = space.array_spec(names2, sa, space.fill(pool2, sa, ra, 1))
             spb = space.array_spec(names2, sb, space.fill(dpool2, sb, rb, 1))
             judge_divmod(R, f"arrays2 {sa}/{sb} rot {ra},{rb}", build_checked(spa), build_checked(spb), model_of(spa), model_of(spb),
